@@ -31,6 +31,7 @@ type FileObj struct {
 	reads  int    // number of read events through this descriptor
 	lockedBeforeFirstRead bool
 	out    []*Term // bytes written directly (text out files)
+	full   bool    // /dev/full: every write fails
 }
 
 type FileBufObj struct {
@@ -346,6 +347,12 @@ func (m *Machine) envIntrinsic(name string, fn *ssa.Function, args []Value) (Val
 		flags, ok := args[1].(*Term).ConstInt64()
 		if !ok {
 			m.unsupported("os.OpenFile with symbolic flags")
+		}
+		if path == "/dev/full" {
+			// a device that accepts opens and fails every write with ENOSPC
+			fo := &FileObj{f: &FsFile{path: path, exists: true}, path: path, open: true, flags: flags, id: len(e.fds), full: true}
+			e.fds = append(e.fds, fo)
+			return TupleV{Pointer{loc: fo}, nilErr}, true
 		}
 		if strings.HasPrefix(path, "/vfs-nodir/") {
 			return TupleV{Pointer{}, m.pathError("open", path, true)}, true
